@@ -560,6 +560,13 @@ func (k *kvRun) resolveCas(mode, coll, key string) uint64 {
 		return 4242
 	case "bogus":
 		return 12345
+	case "max": // never issued either: the largest values the SQL driver accepts (a uint64 with the high bit set is
+		// refused by database/sql before it reaches SQLite: the call fails with a driver error - not modelled)
+		return 1<<63 - 1
+	case "maxm1":
+		return 1<<63 - 2
+	case "big":
+		return 1 << 62
 	default:
 		return 0
 	}
